@@ -9,6 +9,7 @@ import (
 	"github.com/aergoio/aergo/v2/state"
 	"github.com/aergoio/aergo/v2/state/statedb"
 	"github.com/aergoio/aergo/v2/types"
+	"github.com/aergoio/aergo/v2/types/dbkey"
 	vf "github.com/aergoio/aergo/v2/zzvf"
 )
 
@@ -25,6 +26,8 @@ const (
 	vfLgOther         // B: an ordinary second account
 	vfLgBystander     // U: never named by the tx
 	vfLgVault         // aergo.vault (special account used as a plain recipient)
+	vfLgSystem        // aergo.system (custody of stakes)
+	vfLgName          // aergo.name (custody of name fees until an owner is set)
 	vfLgCreated       // the contract id a DEPLOY tx of A creates (filled in per tx)
 	vfLgN
 )
@@ -124,6 +127,8 @@ func vfLgWorld(otherKind int, gasPrice *big.Int) *vfLedger {
 	w.ids[vfLgOther] = vfLgAddr(0xB2)
 	w.ids[vfLgBystander] = vfLgAddr(0xC3)
 	w.ids[vfLgVault] = []byte(types.AergoVault)
+	w.ids[vfLgSystem] = []byte(types.AergoSystem)
+	w.ids[vfLgName] = []byte(types.AergoName)
 	for i := 0; i < vfLgN; i++ {
 		w.bal0[i] = new(big.Int)
 		if w.ids[i] == nil {
@@ -142,6 +147,15 @@ func vfLgWorld(otherKind int, gasPrice *big.Int) *vfLedger {
 		}
 		if err := sdb.PutState(types.ToAccountID(w.ids[i]), st); err != nil {
 			vf.Fail("harness-setup")
+		}
+		if i == vfLgOther && otherKind == 2 {
+			// the contract B was created by A (creator meta in its staged storage): REDEPLOY by A is admissible
+			cs, err := statedb.OpenContractState(w.ids[i], st, sdb)
+			if err != nil {
+				vf.Fail("harness-setup")
+			}
+			cs.SetData(dbkey.CreatorMeta(), []byte(types.EncodeAddress(w.ids[vfLgSender])))
+			statedb.StageContractState(cs, sdb)
 		}
 	}
 	w.reward0 = vf.Big("reward0")
